@@ -107,9 +107,10 @@ PREFS = {
 
 SEP_MENU_Q = [
     ['ident', 'a'], ['num', '', '1', '', 'px'], ['num', '-', '', '5', 'em'], ['num', '+', '0', '50', '%'], ['str', 'x', 'sq'],
-    ['url', 'u', 'bare'], ['hash', '#AABBCC'], ['func', 'rgb', ['1', '2', '3']],
+    ['url', 'u', 'bare'], ['hash', '#AABBCC'], ['func', 'rgb', ['1', '2', '3']], ['ident', 'b\\ '],  # (an identifier that ends in an escaped blank)
 ]
-SEP_MENU_T = SEP_MENU_Q + [['kw', 'red'], ['num', '', '0', '', ''], ['url', 'a b', 'dq'], ['str', ',/', 'dq'], ['func', 'hsla', ['120', '50%', '50%', '.5']]]
+SEP_MENU_T = SEP_MENU_Q + [['kw', 'red'], ['num', '', '0', '', ''], ['url', 'a b', 'dq'], ['str', ',/', 'dq'], ['func', 'hsla', ['120', '50%', '50%', '.5']],
+                            ['ident', 'c\xa0']]  # (ends in a character that is white space for Python, content for CSS)
 SEPS_Q = ['space', 'comma', 'slash']
 SEPS_T = ['space', 'comma', 'slash', 'comma-s', 'slash-s']
 SEP_SPELL = {'space': ' ', 'comma': ',', 'slash': '/', 'comma-s': ' , ', 'slash-s': ' / '}
@@ -187,9 +188,9 @@ def _quote_hex(content, q):
     out = [q]
     for i, c in enumerate(content):
         nxt = content[i + 1:i + 2]
-        if c == q or c == '\\':
+        if c == q:
             out.append('\\' + c)
-        elif c in '\n\r\f\xe9':
+        elif c in '\n\r\f\xe9\\':  # (the backslash too: \5c denotes what \\ denotes)
             out.append('\\%x' % ord(c) + (' ' if (nxt and (nxt in HEXD_ALL or nxt in CSS_WS)) else ''))
         else:
             out.append(c)
@@ -249,7 +250,7 @@ def denote_comp(c):
     if k == 'url':
         return ('url', c[1])
     if k == 'ident':
-        return ('ident', c[1])
+        return ('ident', RV.unescape(c[1], False))  # (the name an identifier denotes: its spelling with the escapes resolved)
     raise ValueError(k)
 
 
@@ -450,7 +451,7 @@ def _judge_accessors(case, want, acc, out, path, stats):
         elif kind in ('str', 'url', 'ident'):
             if a[0] != kind:
                 out.append(V('C18.accessor', f'{kind}|type', kind, a[0], path=path))
-            elif a[1] != w[1] and not (kind != 'ident' and _escaped_spelling_of(a[1], w[1])):
+            elif a[1] != w[1] and not _escaped_spelling_of(a[1], w[1]):
                 out.append(V('C18.accessor', f'{kind}|content', w[1], a[1], path=path))
 
 
@@ -999,8 +1000,8 @@ def run_shard(shard, tier, seed):
     try:
         kind = shard[0]
         if kind == 'terminators':
-            for fo in TERMINATOR_FOLLOWERS:
-                for head in ('\xe9', '\n', 'a\xe9', '\xe9\xe9'):
+            for fo in TERMINATOR_FOLLOWERS + ['b', ' ']:
+                for head in ('\xe9', '\n', 'a\xe9', '\xe9\xe9', '\\', 'a\\'):
                     content = head + fo + 'z'
                     for form in ('dq-hex', 'sq-hex'):
                         evaluate(res, {'family': 'string', 'comps': [['str', content, form]], 'seps': []}, 2)
